@@ -1,5 +1,130 @@
-"""Native replay of a verifier counterexample on the real code (filled in below)."""
+"""Native replay of a verifier counterexample on the real code (public API, real memory).
+
+The K2 contract harnesses run the real library code over a ghost backend, so Kani's own playback
+cannot execute them natively.  Instead the counterexample's *inputs* (operation, element size, len,
+capacity, index / range / consumption state ...) are decoded from the CBMC trace and handed to the
+native driver replay/vp_replay.rs, which executes the same operation on the real code next to
+std::vec::Vec.  If that exact scenario does not fail natively, the driver enumerates all small
+scenarios of the same operation family (len <= 5) and reports the first one that does.
+"""
+import os, re, subprocess, shutil, json
+
+ROOT = os.path.dirname(os.path.abspath(__file__))
+ESZ = dict(Z0=0, E1=1, E2=2, E3=3, E8=8, E12=12, E16=16, E24=24, E160=160, D3=3, D8=8, D24=24, A32=32, A64=64)
+OPS = dict(OP_REMOVE=0, OP_SWAP_REMOVE=1, OP_POP=2)
+SINKS = dict(SINK_DROP=1, SINK_MOVE=2, SINK_FORGET=3, SINK_DOWNCAST=2)
+SRCS = dict(SRC_RAW=0, SRC_WRAPPER=1, SRC_TYPED=2)
+
+
+def scenario_of(h):
+    """static part of the scenario, from the harness instantiation"""
+    c = h.call or ''
+    m = re.match(r'(\w+)::<(\w+)>\((.*)\)$', c)
+    if not m:
+        return None
+    fn, ty, args = m.group(1), m.group(2), [a.strip() for a in m.group(3).split(',')]
+    s = dict(esz=ESZ.get(ty, 8))
+    if s['esz'] == 0:
+        s['esz'] = 8     # the native driver has no identity for zero-sized values; same code path, size 8
+    last = lambda a: a.split('::')[-1]
+    if fn == 'insert_owned':
+        s.update(fam='insert', src=SRCS[args[0]], push=int(args[1] == 'true'))
+    elif fn == 'insert_from_other':
+        s.update(fam='from_other', push=int(args[0] == 'true'), op=OPS[last(args[1])])
+    elif fn in ('insert_lazy_clone', 'insert_lazy_clone_tgt'):
+        s.update(fam='lazy', push=int(args[0] == 'true'))
+    elif fn == 'remove_erased':
+        s.update(fam='remove', op=OPS[last(args[0])], sink=SINKS[last(args[1])])
+    elif fn == 'drain_h':
+        s.update(fam='drain', how=3 if args[2] == 'FORGET' else 1)
+    elif fn == 'splice_h':
+        s.update(fam='splice', how=3 if args[2] == 'FORGET' else 1)
+        if args[5].isdigit() and int(args[5]) <= 3:
+            s['k'] = int(args[5])
+        if args[4] == 'true':
+            s['misreport'] = 1
+    elif fn == 'clear_h':
+        s.update(fam='clear')
+    elif fn == 'clone_h':
+        s.update(fam='clone')
+    elif fn == 'reserve_h':
+        s.update(fam='reserve', exact=int(args[0] == 'true') if args else 0)
+    elif fn == 'shrink_h':
+        s.update(fam='shrink', fit=int(args[0] == 'true') if args else 0)
+    else:
+        return None
+    return s
+
+
+def _run_driver(native, scn, mode):
+    env = dict(os.environ, CARGO_NET_OFFLINE='true', VP_SCN=';'.join('%s=%s' % kv for kv in scn.items()), VP_MODE=mode)
+    p = subprocess.run(['cargo', 'test', '--offline', '--test', 'vp_replay', '--', '--nocapture', '--test-threads', '1'],
+                       cwd=native, env=env, stdout=subprocess.PIPE, stderr=subprocess.STDOUT, text=True, timeout=900)
+    out = p.stdout
+    m = re.search(r'VP-REPRODUCED scenario: (.*)\nVP-REPRODUCED failure: (.*)', out)
+    if m:
+        return dict(reproduced=True, scenario=m.group(1), failure=m.group(2))
+    if 'VP-NOT-REPRODUCED' in out:
+        return dict(reproduced=False)
+    # crash of the real code (double free, segfault) is a reproduction too
+    if re.search(r'signal: \d+|double free|SIGSEGV|SIGABRT|malloc', out):
+        return dict(reproduced=True, scenario=env['VP_SCN'], failure='the test process crashed: ' + out[-400:])
+    return dict(reproduced=False, error=out[-1500:])
+
+
 def native_replay(h, info, repo, scratch):
-    return dict(reproduced=False, note='no native driver for this harness family yet')
+    scn = scenario_of(h)
+    if scn is None:
+        return dict(reproduced=False, note='no native driver for this harness family')
+    native = os.path.join(scratch, 'native')
+    if not os.path.exists(native):
+        subprocess.run(['rsync', '-a', '--exclude', 'target', '--exclude', '.git', repo + '/', native + '/'], check=True)
+        shutil.copy(os.path.join(ROOT, 'replay', 'vp_replay.rs'), os.path.join(native, 'tests', 'vp_replay.rs'))
+    res = dict(driver='replay/vp_replay.rs (real code, public API, Heap backend, std::vec::Vec as oracle)')
+    ce = dict(info.get('counterexample_inputs') or {})
+    exact = dict(scn)
+    ok_exact = bool(ce) and all(isinstance(v, int) and 0 <= v <= 4096 for k, v in ce.items() if k in ('len', 'index', 'start', 'end', 'f', 'b', 'len_b', 'j'))
+    if ok_exact:
+        for k in ('len', 'cap', 'index', 'start', 'end', 'f', 'b', 'k', 'len_b', 'cap_b', 'j', 'report', 'n'):
+            if k in ce and k not in ('k',) or (k == 'k' and 'k' not in exact and k in ce):
+                exact[k] = min(ce[k], 1 << 16) if k in ('cap', 'cap_b') else ce[k]
+        r = _run_driver(native, exact, 'exact')
+        res['exact_scenario'] = exact
+        res['exact'] = r
+        if r.get('reproduced'):
+            res.update(reproduced=True, scenario=r['scenario'], failure=r['failure'], how='verifier counterexample replayed on the real code')
+            return res
+    variants = [scn]
+    if scn.get('misreport'):
+        variants = [dict(scn, report_delta=d) for d in (-1, 1, -2, 2)]
+    for v in variants:
+        r = _run_driver(native, v, 'search')
+        if r.get('reproduced'):
+            res.update(reproduced=True, scenario=r['scenario'], failure=r['failure'],
+                       how='counterexample values not directly replayable; exhaustive native search over small scenarios of the same operation family')
+            return res
+        res['search'] = r
+    res['reproduced'] = False
+    return res
+
+
 def replay_file(info, repo):
-    return 0
+    """./check --replay <file>: re-run the native scenario stored in a replay file against /repo"""
+    nr = info.get('native_replay') or {}
+    scn_txt = nr.get('scenario')
+    if not scn_txt:
+        print('replay file has no native scenario (the violation was reported with no-failing-input-found);')
+        print('failed obligation(s):', [f['obligation'] for f in info.get('failed_obligations', [])])
+        return 1
+    import tempfile
+    d = tempfile.mkdtemp(prefix='anyvec.replay.', dir=os.environ.get('VERIF_SCRATCH', '/var/tmp'))
+    try:
+        native = os.path.join(d, 'native')
+        subprocess.run(['rsync', '-a', '--exclude', 'target', '--exclude', '.git', repo + '/', native + '/'], check=True)
+        shutil.copy(os.path.join(ROOT, 'replay', 'vp_replay.rs'), os.path.join(native, 'tests', 'vp_replay.rs'))
+        scn = dict(kv.split('=') for kv in scn_txt.split(';') if '=' in kv)
+        r = _run_driver(native, scn, 'exact')
+        print(json.dumps(r, indent=1))
+        return 1 if r.get('reproduced') else 0
+    finally:
+        shutil.rmtree(d, ignore_errors=True)
